@@ -137,7 +137,7 @@ Proof. destruct (a ?= b) eqn:E; cbn; symmetry.
   - rewrite N.compare_gt_iff in E. now apply N.ltb_lt.
 Qed.
 
-(* the successor block admits exactly the block itself *)
+(* the successor block lets through exactly the block itself *)
 Lemma blk_succ D D' E : forallb is_dig D = true -> forallb is_dig E = true -> length E = length D ->
   incr D = Some D' -> negb (is_gt (lcmp D E)) && is_gt (lcmp D' E) = is_eq (lcmp D E).
 Proof.
